@@ -216,6 +216,7 @@ func (m *Map) Load(k any) (any, bool) {
 func (m *Map) Store(k, v any) {
 	zzvrt.Point(zzvrt.KMap, nil)
 	m.store(k, v)
+	zzvrt.PostPoint()
 }
 func (m *Map) store(k, v any) {
 	m.init()
@@ -230,6 +231,7 @@ func (m *Map) LoadOrStore(k, v any) (any, bool) {
 		return old, true
 	}
 	m.store(k, v)
+	zzvrt.PostPoint()
 	return v, false
 }
 func (m *Map) LoadAndDelete(k any) (any, bool) {
@@ -257,12 +259,14 @@ func (m *Map) Swap(k, v any) (any, bool) {
 	zzvrt.Point(zzvrt.KMap, nil)
 	old, ok := m.m[k]
 	m.store(k, v)
+	zzvrt.PostPoint()
 	return old, ok
 }
 func (m *Map) CompareAndSwap(k, old, new any) bool {
 	zzvrt.Point(zzvrt.KMap, nil)
 	if cur, ok := m.m[k]; ok && cur == old {
 		m.m[k] = new
+		zzvrt.PostPoint()
 		return true
 	}
 	return false
